@@ -22,7 +22,14 @@ CONFIG = {
                   "of the source flips the flag, fails these obligations and range_end_panic_witness names the panicking inputs), "
                   "order_by_panics_iff characterises the panicking comparisons exactly, "
                   "never_panics_partial / bindings_never_panic_partial prove the clause for values 14 h away from the ends of chrono's "
-                  "range; datetime_flags_pinned pins the three dateTime fixes (9f7e0fe, c9027e0). The full "
+                  "range; datetime_flags_pinned pins the three dateTime fixes (9f7e0fe, c9027e0). Permutation clause: stdSmallSort "
+                  "is a transcription of std's insertion_sort_shift_left, which sort_unstable_by runs for len <= 20; stdSmallSort_perm / "
+                  "order_by_small_perm prove a permutation for EVERY comparator (also the inconsistent ones), stdSmallSort_contract "
+                  "discharges the SortContract hypothesis for it (order_by_small_sorted). order_refl_all / order_swap_all / "
+                  "bindings_swap_all: reflexivity and antisymmetry hold on all well-formed terms and rows; "
+                  "order_laws_except_transitivity: transitivity is the only law that fails. xsd_dispatch_pinned + "
+                  "tryFromTyped_eq_generated: the datatype dispatch of try_from_literal, regenerated from sparql/src/value.rs, equals "
+                  "the transcription the theorems use, for all inputs. The full "
                   "statement order_total_preorder is REFUTED for the code as written by kernel-checked witnesses "
                   "(order_not_transitive, order_not_transitive_welltyped, numeric_ties_not_transitive): recorded findings; the full "
                   "statement IS proved for a repaired comparator (repaired_total_preorder: class rank first, exact comparison "
@@ -31,15 +38,17 @@ CONFIG = {
                   "matrices observed through two-row ORDER BY queries): that part is testing, not proof.",
     "level_note": "Trusted: transcription of exec.rs/expression.rs/value*.rs and of the third-party parsers/conversions "
                   "(std FromStr, num-bigint, bigdecimal, chrono) into lean/SophiaModel/Model/OrderBy.lean, checked per case by the "
-                  "differential; a two-element sort_unstable_by swaps iff is_less(second, first); the sort algorithm itself enters "
-                  "the theorems only through its contract. Model scope: ORDER BY keys are variables (keys `?k + 0`, BIND(?k * 1 AS ?b), "
+                  "differential; a two-element sort_unstable_by swaps iff is_less(second, first); for more than 20 rows the sort algorithm (ipnsort) enters "
+                  "the theorems only through its contract and its panic freedom is differential only; for at most 20 rows the model "
+                  "of std's insertion sort is tied by Q requests (exact output order of real queries, any values). Reproducibility "
+                  "(sorted arrangements agree up to ties) is not proved. Model scope: ORDER BY keys are variables (keys `?k + 0`, BIND(?k * 1 AS ?b), "
                   "STR(?k) are checked against an oracle computed by the model, not modelled step by step); decimals written with a "
                   "positive exponent next to floats are skipped; the whole year range of chrono (-262143..262142) is modelled including "
                   "the checked_sub_offset overflow at its ends. How XsdDateTime::new treats an i32-overflowing year, which digit class "
                   "its regex uses and whether naive_to_fixed treats an overflow as unreachable!() is regenerated from the source "
                   "(tools/extractors/c14.py -> Gen/DateTimeFlags.lean, fail-closed on any other shape of heterogeneous_cmp / "
                   "naive_to_fixed / PartialOrd for XsdDateTime).",
-    "tables": ["datetime_flags"],
+    "tables": ["datetime_flags", "xsd_dispatch"],
     "lean_targets": ["SophiaProofs.Props.C14", "SophiaProofs.Audit.C14"],
     "theorems": ["order_not_transitive", "order_not_transitive_welltyped", "numeric_ties_not_transitive",
                  "not_order_total_preorder", "order_total_preorder_partial", "respects_lt", "kind_order", "desc_reverse",
@@ -47,7 +56,9 @@ CONFIG = {
                  "repaired_total_preorder", "repaired_respects_cmp_partial", "repaired_kind_order",
                  "order_total_preorder_partial_kinds", "sorted_first_key", "sorted_kind_order", "sorted_respects_lt_first_key",
                  "sorted_later_keys_break_ties", "order_by_panics_iff", "panics_symm", "never_panics_partial",
-                 "bindings_never_panic_partial", "range_end_panic_witness", "never_panics_iff_flag", "datetime_flags_pinned", "never_panics", "bindings_never_panic"],
+                 "bindings_never_panic_partial", "range_end_panic_witness", "never_panics_iff_flag", "datetime_flags_pinned", "never_panics", "bindings_never_panic",
+                 "stdSmallSort_perm", "stdSmallSort_contract", "order_by_small_perm", "xsd_dispatch_pinned", "xsdKind_eq_find", "valueOfKind_eq_armSem", "tryFromTyped_eq_generated",
+                 "order_swap_all", "order_refl_all", "order_laws_except_transitivity", "bindings_swap_all", "order_by_small_sorted"],
     "native_ok": [],
     "trivial_re": r"^bad-",
     "rule": "T requests: n values (class tables from a 300-value table covering every XSD numeric type incl. derived integer "
@@ -60,7 +71,8 @@ CONFIG = {
             "in store order (mixed, homogeneous, cycle-dense, dateTime range, and CLEAN ones inside one comparison class where no "
             "known finding can match) under catch_unwind with permutation / adjacent / sampled-pair checks; M requests: 21-90 rows, "
             "2-3 keys each inside one comparison class, unbound cells, ASC/DESC, LIMIT/OFFSET (permutation, sortedness, "
-            "reproducibility, slice agrees with the full result up to ties); X requests: one key `?k + 0` / BIND(?k * 1 AS ?b) / "
+            "reproducibility, slice agrees with the full result up to ties); Q requests: 2-20 rows, 1-3 keys, ANY values, unbound cells: exact output order (given and flipped "
+            "flags) against stdSmallSort with cmpBindingsWith; X requests: one key `?k + 0` / BIND(?k * 1 AS ?b) / "
             "STR(?k) against the order of the key values computed by the model (errors = unbound first, numbers by value, strings by "
             "code point). "
             "distinct = distinct request lines; non-trivial = every well-formed request",
